@@ -461,14 +461,14 @@ def gen_programs(ctx, n, errors=True, tag="programs"):
 
 
 def norm_remote_error(text):
-    """frames after `executetask` + the exception line: independent of where gateway_base's text came from"""
+    """frames after `executetask` / `_executetask` (the function that runs the body) + the exception line: independent of where gateway_base's text came from"""
     lines = str(text).splitlines()
     out = []
     seen_exec = False
     for ln in lines:
         s = ln.strip()
         if s.startswith("File "):
-            if "in executetask" in s:
+            if "in executetask" in s or "in _executetask" in s:
                 seen_exec = True
                 out = []
                 continue
